@@ -228,6 +228,16 @@ Fixpoint exec (fuel : nat) (ovf : bool) (t : ty) (s : mach) (top : ptr) (ps : li
                 | o => o
                 end
             end
+        (* enum: `get()` (enum_impl.rs 777-785) matches the live variant; i = the discriminant the caller expects.
+           Another variant: nothing is done (-1); a unit variant has no payload wrapper (-2); otherwise the payload's
+           wrapper is map_mut of the variant's pointer: no pointer state changes *)
+        | TEnum rw vs, PEnum _ d _ =>
+            if negb (i =? d) then Ok (s, top, [-1]) else
+            match find_variant d vs with
+            | Some (TStruct []) => Ok (s, top, [-2])
+            | Some _ => exec f ovf t s top (ps ++ [PV]) r
+            | None => Panic
+            end
         | _, _ => SKIPPED
         end
     | 2 :: key :: r =>
@@ -530,6 +540,33 @@ Fixpoint exec (fuel : nat) (ovf : bool) (t : ty) (s : mach) (top : ptr) (ps : li
                 | o => o
                 end
             | _ => Panic
+            end
+        | _ => SKIPPED
+        end
+    (* ---- enum: set_<variant d>(DefaultInit) (enum_impl.rs 733-764) = set_from_init(EnumInit<Variant>(DefaultInit)):
+       wrapper.rs set_data_inner at the enum's start pointer with INIT_BYTES = repr width + the variant's INIT_BYTES,
+       init = the variant's discriminant then the variant's DefaultInit, the StartPointer re-derived by get_ptr.  The setter
+       of a data variant returns the payload's wrapper: the remaining op codes (if any) are applied there; an error of
+       theirs is reported with the state after the switch *)
+    | 60 :: d :: r =>
+        match tc with
+        | TEnum rw vs =>
+            match find_variant d vs with
+            | None => SKIPPED
+            | Some vt =>
+                match set_data ovf t s top ps (init_variant_size rw vt 0) (init_variant rw d vt 0) with
+                | Ok (s1, top1, []) =>
+                    match r, vt with
+                    | [], _ => Ok (s1, top1, [])
+                    | _, TStruct [] => Ok (s1, top1, [])
+                    | _, _ =>
+                        match exec f ovf t s1 top1 (ps ++ [PV]) r with
+                        | Err c => if c =? -9 then SKIPPED else efail s1 top1 c
+                        | o => o
+                        end
+                    end
+                | o => o
+                end
             end
         | _ => SKIPPED
         end
